@@ -143,15 +143,22 @@ def c13_b(ctx: Ctx):
         return [ctx.inc(R, sj, sj.node, "sync_jobs does not call _sync_job_workspaces")]
     sp_app, doc_app = set(), set()
     for n in cfg.stmt_nodes():
+        added = []
         for sub in _own(n.ast):
             for c in walk_no_nested(sub):
-                if isinstance(c, ast.Call) and isinstance(c.func, ast.Attribute) and c.func.attr in ("append", "extend", "add") \
+                if isinstance(c, ast.Call) and isinstance(c.func, ast.Attribute) and c.func.attr in ("append", "extend", "add", "insert") \
                         and canon(c.func.value) == "exclude" and c.args:
-                    a = canon(c.args[0])
-                    if a.endswith("FN_STATE_POINT"):
-                        sp_app.add(n.id)
-                    if a.endswith("FN_DOCUMENT"):
-                        doc_app.add(n.id)
+                    added.append(canon(c.args[-1]))
+        a0 = n.ast
+        if isinstance(a0, ast.AugAssign) and canon(a0.target) == "exclude":
+            added.append(canon(a0.value))
+        if isinstance(a0, ast.Assign) and any(canon(t) == "exclude" for t in a0.targets) and "exclude" in names_in(a0.value):
+            added.append(canon(a0.value))
+        for a in added:
+            if "FN_STATE_POINT" in a:
+                sp_app.add(n.id)
+            if "FN_DOCUMENT" in a:
+                doc_app.add(n.id)
     for st, call in walk:
         ex = kwarg(call, "exclude") or (call.args[3] if len(call.args) > 3 else None)
         if ex is None or canon(ex) != "exclude":
@@ -185,6 +192,15 @@ def c13_b(ctx: Ctx):
         trees = [c for st in lp.body for c in walk_no_nested(st) if isinstance(c, ast.Call) and isinstance(c.func, ast.Name) and c.func.id == "copytree"]
         if copies:
             facts = common.facts_at(ctx, sjw, copies[0], "n")
+            exf = [t for (t, pol) in facts if not pol and "exclude" in t]
+            if exf:
+                verdict, msg = common.exclude_predicate_verdict(ctx, sjw, exf[0], canon(lp.target))
+                if verdict == "viol":
+                    out.append(ctx.viol(R, sjw, copies[0], msg, construct=SJW + "|exclude-predicate"))
+                elif verdict == "ok":
+                    out.append(ctx.ok(R, sjw, copies[0], msg, construct=SJW + "|exclude-predicate"))
+                else:
+                    out.append(ctx.inc(R, sjw, copies[0], msg, construct=SJW + "|exclude-predicate"))
             extra = [f for f in facts if not ("exclude" in f[0] or "isfile" in f[0] or f[0] == "deep")]
             if extra:
                 out.append(ctx.viol(R, sjw, copies[0], f"source-only files are copied only under the additional condition {extra}: some source files never reach the destination"))
@@ -270,4 +286,14 @@ def c13_d(ctx: Ctx):
     return res
 
 
-RULES = [c13_a, c13_b, c13_c, c13_d]
+@rule("C13-e")
+def c13_e(ctx: Ctx):
+    """Destination-only document keys survive: nested mappings are merged, existing keys overwritten only when selected (same obligation as C14-b)."""
+    from .c14 import c14_b
+    res = c14_b(ctx)
+    for r in res:
+        r.rule = "C13-e"
+    return res
+
+
+RULES = [c13_a, c13_b, c13_c, c13_d, c13_e]
